@@ -117,7 +117,7 @@ def decide(spec, tier, seed):
             # which calendar configurations the broken tie proofs are about (file names in the error lines); anything
             # else (the shared lemmas, the generated file itself) means all of them
             which = {"Julian": ["jul"], "Jalali": ["jal33", "jal2820"], "Ethiopian": ["eth"], "Proleptic": ["gprol"],
-                     "Indian": ["ind"], "Hijri": ["hij-a", "hij-t"]}
+                     "Indian": ["ind"], "Hijri": ["hij-a", "hij-t"], "HijriTable": ["hij-t"]}
             cfgs, unknown = set(), False
             for f in ties.get("broken_files", []) or ["?"]:
                 m = re.match(r"Starcal/SrcTie/(\w+)\.lean$", f)
